@@ -10,7 +10,7 @@ from dsim import refmodel as R
 ENCS = ['utf-8', 'utf-16', 'utf-16-le', 'utf-16-be', 'utf-32', 'utf-32-le',
         'utf-32-be', 'latin-1', 'cp1252', 'iso-8859-15', 'koi8-r', 'cp437',
         'ascii', 'cp037', 'cp500', 'shift_jis', 'euc-jp', 'gbk', 'gb18030',
-        'big5', 'euc-kr']
+        'big5', 'euc-kr', 'utf-8-sig']
 ENCS_COMMON = ['utf-8', 'utf-16', 'utf-32', 'latin-1']
 # encodings under which a wrong choice is *visible* for non-ASCII text
 ENCS_VISIBLE = ['utf-8', 'utf-16', 'utf-32-be', 'cp037', 'latin-1',
@@ -229,6 +229,9 @@ def gen_content_op(rng, name, scope_enc, pool=None, big=False):
         if rng.chance(0.4):
             op['diff_type'] = rng.choice(['text', 'binary'])
 
+    if rng.chance(0.1):
+        op['positional'] = True
+
     return op
 
 
@@ -328,7 +331,8 @@ def _json_style(rng, md, style):
 
 def gen_foreign(rng, pool=None, shuffle=True, blanks=True, crlf=None,
                 drop_optional=True, json_styles=True, p_main_none=0.12,
-                max_changes=3, max_files=3, big=False, meta_le=True):
+                max_changes=3, max_files=3, big=False, meta_le=True,
+                long_opts=False):
     """Returns a foreign spec (refmodel.render_foreign format).  Variations:
     option order shuffled, optional options dropped, blank lines between
     sections, all-CRLF header lines, compact / differently indented JSON, raw
@@ -344,6 +348,10 @@ def gen_foreign(rng, pool=None, shuffle=True, blanks=True, crlf=None,
             rng.shuffle(items)
         else:
             items.sort()
+
+        if long_opts and rng.chance(0.1):
+            items.insert(rng.below(len(items) + 1),
+                         ('x-id', 'v' * rng.choice([60, 100, 200])))
 
         head = '#%s:' % sid
 
@@ -553,3 +561,16 @@ def gen_stream(rng):
     kind = rng.weighted([(6, 'sim'), (2, 'bytesio'), (2, 'buffered')])
     return kind, (rng.choice([1, 2, 7, 64, 512, 8192])
                   if kind == 'buffered' else None)
+
+
+def gen_stream_extras(rng):
+    """{'prefix': n, 'late_rewind': bool}: how the stream is handed over."""
+    d = {}
+
+    if rng.chance(0.12):
+        d['prefix'] = rng.randint(1, 7)
+
+    if rng.chance(0.06):
+        d['late_rewind'] = True
+
+    return d
